@@ -20,7 +20,7 @@ DST = ['M0', 'M1', 'L', 'P0', 'B0', 'static', 'array', 'P1', 'D', 'M2']
 NSRC_Q, NDST_Q = 3, 7
 
 
-def build(edges, v0, v1, v2, base=True):
+def build(edges, v0, v1, v2, base=True, table=False):
   """edges: list of (src, dst, hi) concrete small ints (after pick).  Base structure
   (when base): M0.child = M1, M0.items = L, M0.p = P0, M1.b = B0.  Every extra edge
   adds an attribute / list element / dict entry, so aliasing, self references and
@@ -38,6 +38,9 @@ def build(edges, v0, v1, v2, base=True):
     o['M0'].items = o['L']
     o['M0'].p = o['P0']
     o['M1'].b = o['B0']
+  if table:
+    # int-keyed container whose keys order differently as numbers and as strings
+    o['M0'].table = {2: nnx.Param(v0 + 50), 10: nnx.Param(v1 + 60)}
   for i, (s, d, hi) in enumerate(edges):
     src, dst = o[SRC[s]], o[DST[d]]
     if isinstance(src, list):
